@@ -243,7 +243,16 @@ func (p *prop) tagsAndOracle(k *kase, impl string, o *obs, out *core.Outcome) {
 			mp = append(mp, sp...)
 		}
 		mp = append(append(mp, hp...), fixedPrefixes...)
-		mz := append(make([]string, len(mp)-len(fixedPrefixes)), fixedZones...)
+		var mz []string
+		if !k.srvDyn {
+			for _, r := range k.srvT {
+				mz = append(mz, zoneOfRange(r))
+			}
+		}
+		for _, r := range k.hT {
+			mz = append(mz, zoneOfRange(r))
+		}
+		mz = append(mz, fixedZones...)
 		zoneMatch := func(a netip.Addr, zone string) bool {
 			for i, p := range mp {
 				if p.Contains(a) && (mz[i] == "" || mz[i] == zone) {
@@ -583,4 +592,11 @@ func (p *prop) tagsAndOracle(k *kase, impl string, o *obs, out *core.Outcome) {
 			}
 		}
 	}
+}
+
+// zoneOfRange is the zone filter a matcher attaches to a range expression (text behind the first '%').
+func zoneOfRange(r string) string {
+	_, z, _ := strings.Cut(r, "%")
+	z, _, _ = strings.Cut(z, "%")
+	return z
 }
